@@ -17,7 +17,7 @@ for sid in sorted(d for d in os.listdir(os.path.join(VERIF, "seeded")) if os.pat
     if len(summ) > 150:
         summ = summ[:150] + "…"
     suffix = sid.split("-")[1]
-    rnd = "regression of a fix" if suffix.startswith("r") else {"a": "1", "b": "1", "c": "2", "d": "2", "e": "3", "f": "3", "g": "4", "h": "4", "i": "5", "j": "5", "k": "6", "l": "6"}.get(suffix, "?")
+    rnd = "regression of a fix" if suffix.startswith("r") else {"a": "1", "b": "1", "c": "2", "d": "2", "e": "3", "f": "3", "g": "4", "h": "4", "i": "5", "j": "5", "k": "6", "l": "6", "m": "7"}.get(suffix, "?")
     c = by_round.setdefault(rnd, [0, 0])
     c[1] += 1
     total += 1
